@@ -1061,7 +1061,16 @@ func (ls *LState) pushCallFrame(cf callFrame, fn LValue, meta bool) { // +inline
 	ls.currentFrame = newcf
 } // +inline-end
 
+// maxNestedCallDepth bounds the depth of the call stack at which a call may still be made through
+// the Go stack (Call, PCall, pcall, metamethods, iterators …): every such call runs a nested
+// interpreter loop on the Go stack, which the configured call-stack size does not protect
+// (LUAI_MAXCCALLS in the reference implementation).
+const maxNestedCallDepth = 20000
+
 func (ls *LState) callR(nargs, nret, rbase int) {
+	if ls.stack.Sp() >= maxNestedCallDepth {
+		ls.RaiseError("C stack overflow")
+	}
 	base := ls.reg.Top() - nargs - 1
 	if rbase < 0 {
 		rbase = base
